@@ -1,0 +1,29 @@
+//go:build verif
+
+package freeze
+
+import (
+	"io"
+
+	"k8s.io/cli-runtime/pkg/genericclioptions"
+	"sigs.k8s.io/controller-runtime/pkg/client"
+)
+
+// VerifRunFreeze runs the body of `kubectl-eds freeze` (freeze=true) or
+// `kubectl-eds unfreeze` against an injected client (verification hook, build tag verif).
+func VerifRunFreeze(c client.Client, ns, name string, freeze bool, out io.Writer) error {
+	want := unfrozen
+	if freeze {
+		want = frozen
+	}
+	o := newfreezeOptions(genericclioptions.IOStreams{Out: out, ErrOut: out}, want)
+	o.client = c
+	o.args = []string{name}
+	o.userNamespace = ns
+	o.userExtendedDaemonSetName = name
+	if err := o.validate(); err != nil {
+		return err
+	}
+
+	return o.run()
+}
